@@ -46,7 +46,7 @@ func init() {
 			}
 			return []runner.Phase{
 				{Name: "scenarios", Variant: "race", Cases: n, Run: c14case, CaseTimeout: 120 * time.Second,
-					Required: []string{"executes_checked", "batch_entries_checked", "concurrent_first_use", "prepare_failures_scripted", "unprepared_scripted", "wrong_arity_calls", "small_cache_scenarios", "deadline_scenarios", "callers_ended_by_their_own_deadline", "reused_query_scenarios", "result_rows_checked_against_their_prepare", "result_rows_of_a_later_generation_checked"}},
+					Required: []string{"executes_checked", "batch_entries_checked", "concurrent_first_use", "prepare_failures_scripted", "unprepared_scripted", "wrong_arity_calls", "small_cache_scenarios", "deadline_scenarios", "callers_ended_by_their_own_deadline", "reused_query_scenarios", "result_rows_checked_against_their_prepare", "result_rows_of_a_later_generation_checked", "prepares_abandoned_by_every_waiter"}},
 			}
 		},
 	})
@@ -513,6 +513,56 @@ func c14case(c *runner.Ctx, i int) {
 					st.problem("C14:failure-remembered", fmt.Sprintf("statement %d still fails with %q although every scripted PREPARE failure has been used up", j, clipS(err.Error())))
 				}
 			}
+		}
+	}
+	// a PREPARE that fails after everybody who waited for it has left (their own deadlines): the failure has no
+	// audience, and the next execution must prepare afresh instead of being handed that failure
+	if i%3 == 0 {
+		jx := ns // a statement nobody has used yet
+		for _, n := range nodes {
+			n.mu.Lock()
+			n.failN[jx] = 1
+			n.scripted[jx] = true
+			n.delay = 40 * time.Millisecond
+			n.mu.Unlock()
+		}
+		abandoned := 0
+		for k := 0; k < nn+1; k++ {
+			ctx, cancel := context.WithTimeout(context.Background(), 4*time.Millisecond)
+			var err error
+			c.Guard("Query.Exec", func() { err = sess.Query(c14stmt(jx), fmt.Sprintf("tag%d", jx), k).WithContext(ctx).Exec() })
+			cancel()
+			if err != nil && (errors.Is(err, context.DeadlineExceeded) || strings.Contains(err.Error(), "deadline exceeded")) {
+				abandoned++
+			}
+			time.Sleep(90 * time.Millisecond) // the node answers the abandoned PREPARE (with the failure) meanwhile
+		}
+		for _, n := range nodes {
+			n.mu.Lock()
+			n.delay = 0
+			n.mu.Unlock()
+		}
+		c.Add("prepares_abandoned_by_every_waiter", int64(abandoned))
+		time.Sleep(100 * time.Millisecond)
+		// (a caller that still finds the failing PREPARE in flight is legitimately handed its failure: only a failure
+		// that keeps coming back is a remembered one)
+		stale, lastErr := 0, ""
+		for round := 0; round < 5*nn; round++ {
+			left := 0
+			for _, n := range nodes {
+				n.mu.Lock()
+				left += n.failN[jx]
+				n.mu.Unlock()
+			}
+			var err error
+			c.Guard("Query.Exec", func() { err = sess.Query(c14stmt(jx), fmt.Sprintf("tag%d", jx), 100+round).Exec() })
+			if err != nil && left == 0 && strings.Contains(err.Error(), "scripted PREPARE failure") {
+				stale++
+				lastErr = err.Error()
+			}
+		}
+		if stale >= 3 {
+			st.problem("C14:failure-remembered", fmt.Sprintf("statement %d failed %d times with %q after every scripted PREPARE failure had been delivered (to PREPAREs whose callers had all left)", jx, stale, clipS(lastErr)))
 		}
 	}
 	cacheLen := gocql.VerifPreparedCacheLen(sess)
